@@ -9,7 +9,8 @@
    event is printed and the state is re-synchronised with what the implementation showed (a read
    binds the value read), so that one run reports every deviation of a history, not only the first.
 
-   Events:  pywrite_a / pyread_a (array variable id; v = elements / copies x elements)
+   Events:  d_set_noexist / d_set_exist (Python-side update_elem with a named flag);
+            pywrite_a / pyread_a (array variable id; v = elements / copies x elements)
             pywrite_h / pyread_h (hash variable id; v = word)
             run (cpu; res = "ok" or how the run failed)
             d_set d_get d_pop d_pop_default d_del d_in d_iter d_items (Dict id; k, v tuples of member
@@ -55,6 +56,17 @@ DictStep(e) ==
                       [dd EXCEPT !.m = With(dd.m, kt, vt)])
         ELSE IF e.res = "IndexError" THEN Same(~present /\ Full(dd, decl) /\ ~decl.lru, "IndexError but the Dict has room")
         ELSE Same(FALSE, "set raised " \o e.res)
+    ELSE IF e.op \in {"d_set_noexist", "d_set_exist"} THEN
+        \* update_elem with the flag NOEXIST (insert only) / EXIST (modify only), issued from Python BY NAME
+        LET wanted == IF e.op = "d_set_noexist" THEN ~present ELSE present IN
+        IF ~KeyOk(decl, kt) \/ ~ValOk(decl, vt) THEN Same(FALSE, "driver: member value outside its format")
+        ELSE IF e.res = "ok" THEN
+            IF decl.lru THEN SetD(wanted, "flagged update succeeded against its flag", e.id, HavocDict)
+            ELSE SetD(wanted /\ (present \/ ~Full(dd, decl)), "flagged update succeeded against its flag or into a full Dict",
+                      e.id, [dd EXCEPT !.m = With(dd.m, kt, vt)])
+        ELSE IF e.res = "refused" THEN Same(~wanted, "flagged update refused although its flag allows it")
+        ELSE IF e.res = "IndexError" THEN Same(wanted /\ ~present /\ Full(dd, decl) /\ ~decl.lru, "IndexError but the Dict has room")
+        ELSE Same(FALSE, "flagged update raised " \o e.res)
     ELSE IF e.op \in {"d_get", "d_pop", "d_pop_default"} THEN
         IF e.res = "ok" THEN
             LET after == IF e.op = "d_get" THEN With(dd.m, kt, vt) ELSE Without(dd.m, kt) IN
